@@ -65,6 +65,7 @@ def dispatch (line : String) : String :=
     | "dictx" => dictxOp a
     | "flacblk" => flacblkOp a
     | "flacload" => flacloadOp a
+    | "flacsave" => flacsaveOp a
     | "flacinfo" => flacInfoOp a
     | "ping" => "pong"
     | _ => "bad-op"
